@@ -318,12 +318,20 @@ reads them*: when the accent is the composite itself, `g.Cmds` has already been 
 def composite (own base : Glyph) (accCmds : List Cmd) (s : Seac) : Glyph :=
   { own with cmds := base.cmds ++ accCmds.map (translate s.dx s.dy), hstem := base.hstem, vstem := base.vstem }
 
-/-- one turn of `for _, seac := range ctx.seacs`; `none` is the nil dereference of `glyphs[seac.name]` -/
-def resolveOne (gs : List (Bytes × Glyph)) (si : SeacInfo) : Option (List (Bytes × Glyph)) :=
+/-- `isComposite`: the names of all recorded composites of the font, collected before the loop -/
+def compositeNames (ss : List SeacInfo) : List Bytes := ss.map (·.name)
+
+/-- one turn of `for _, seac := range ctx.seacs`; `none` is the nil dereference of `glyphs[seac.name]`.  `comp` is
+`isComposite`: a composite whose base or accent is itself a composite is skipped (a composite built from composites
+could double its outline at every level).  The tests come in the order of the Go text: range of the codes,
+composite parts, missing glyphs. -/
+def resolveOne (comp : List Bytes) (gs : List (Bytes × Glyph)) (si : SeacInfo) : Option (List (Bytes × Glyph)) :=
   if !codesOK si.seac then some gs
   else
     let bn := codeName si.seac.base
     let an := codeName si.seac.accent
+    if comp.contains bn || comp.contains an then some gs
+    else
     match lookupG gs bn, lookupG gs an with
     | some base, some accent =>
       match lookupG gs si.name with
@@ -333,12 +341,12 @@ def resolveOne (gs : List (Bytes × Glyph)) (si : SeacInfo) : Option (List (Byte
         some (setG gs si.name (composite own base accCmds si.seac))
     | _, _ => some gs
 
-def resolveSeacs : List SeacInfo → List (Bytes × Glyph) → Option (List (Bytes × Glyph))
+def resolveSeacs (comp : List Bytes) : List SeacInfo → List (Bytes × Glyph) → Option (List (Bytes × Glyph))
   | [], gs => some gs
   | si :: rest, gs =>
-    match resolveOne gs si with
+    match resolveOne comp gs si with
     | none => none
-    | some gs' => resolveSeacs rest gs'
+    | some gs' => resolveSeacs comp rest gs'
 
 /-! ## `.notdef` and the final encoding -/
 
@@ -400,7 +408,7 @@ def extract (vm : VM) (dsc : List (String × String)) : ReadResult :=
     | .error (.cs n .fuel) => .unsupported ("charstring fuel in " ++ toString n)
     | .error (.cs n e) => .error (.charstring n e)
     | .ok (gs, ss) =>
-    match resolveSeacs ss gs with
+    match resolveSeacs (compositeNames ss) ss gs with
     | none => .panic "nil pointer dereference: glyphs[seac.name]"
     | some gs1 =>
       let gs2 := addNotdef gs1
